@@ -159,7 +159,7 @@ Proof.
     { unfold init_fail in *. apply (c09_frame s); auto. right. st_simpl_goal. intros r e [X|X]; inversion X; subst; discriminate. }
     match goal with |- c09_inv (if _ then _ else init_fail ?x) => remember x as s2 eqn:Hs2 end.
     assert (Hc : same_ctl (set_peer_sent (peer_sent s ++ [f]) s) s2).
-    { subst s2. destruct (typed_handler cfg (f_typ f)) as [k|]; [|apply same_ctl_refl].
+    { subst s2. destruct (first_handler cfg (f_typ f)) as [k|]; [|apply same_ctl_refl].
       destruct k; try (same_ctl_tac; fail).
       eapply same_ctl_trans; [|apply ack_enqueue_same_ctl]. same_ctl_tac. }
     clear Hs2 Hmono.
